@@ -11,6 +11,19 @@ import (
 
 func init() { jobs = append(jobs, job{props: []string{"C17"}, fn: genC17Facts}) }
 
+// c17RPCCommit: values of lnd's lnrpc.CommitmentType enum (third party; the
+// values the model uses are cross-checked against the compiled ones by the
+// harness op `C17 consts`).
+var c17RPCCommit = map[string]int{
+	"lnrpc.CommitmentType_UNKNOWN_COMMITMENT_TYPE": 0,
+	"lnrpc.CommitmentType_LEGACY":                  1,
+	"lnrpc.CommitmentType_STATIC_REMOTE_KEY":       2,
+	"lnrpc.CommitmentType_ANCHORS":                 3,
+	"lnrpc.CommitmentType_SCRIPT_ENFORCED_LEASE":   4,
+	"lnrpc.CommitmentType_SIMPLE_TAPROOT":          5,
+	"lnrpc.CommitmentType_SIMPLE_TAPROOT_OVERLAY":  6,
+}
+
 // c17Squash collapses all whitespace of a printed expression.
 func c17Squash(s string) string { return strings.Join(strings.Fields(s), " ") }
 
@@ -118,8 +131,9 @@ func genC17Facts() {
 	l.p("/-- one `case` of the switch: condition (`none` = `default:`), returned lnrpc commitment type name, musig2 flag -/")
 	l.p("structure DetCase where")
 	l.p("  cond : Option Cond")
-	l.p("  commit : String")
-	l.p("  musig2 : String")
+	l.p("  commit : Option Nat      -- lnrpc.CommitmentType value of the returned constant (`none` = not a known constant)")
+	l.p("  musig2 : Option Bool     -- returned literal (`none` = not a literal)")
+	l.p("  src : String")
 	l.p("deriving Repr, DecidableEq")
 	var cases []string
 	fd := findFunc(orderFiles, "DetermineCommitmentType")
@@ -157,9 +171,16 @@ func genC17Facts() {
 					fail("DetermineCommitmentType: case body is not a single two-value return")
 					continue
 				}
-				cases = append(cases, fmt.Sprintf("{ cond := %s, commit := %q, musig2 := %q }",
-					cond, strings.TrimPrefix(exprString(ret.Results[0]), "lnrpc.CommitmentType_"),
-					exprString(ret.Results[1])))
+				commit := "none"
+				if v, ok := c17RPCCommit[exprString(ret.Results[0])]; ok {
+					commit = fmt.Sprintf("(some %d)", v)
+				}
+				musig := "none"
+				if s := exprString(ret.Results[1]); s == "true" || s == "false" {
+					musig = "(some " + s + ")"
+				}
+				cases = append(cases, fmt.Sprintf("{ cond := %s, commit := %s, musig2 := %s, src := %q }",
+					cond, commit, musig, c17Squash(exprString(ret.Results[0])+", "+exprString(ret.Results[1]))))
 			}
 		}
 	}
